@@ -413,7 +413,7 @@ func c18ImmutableInterp(t *testing.T, ic c18ImmCase) kit.Verdict {
 				panic(c18Panic{"immutable-resource fetch"})
 			}
 			if plan.A == 1 {
-				return nil, c18TagErr{id}
+				return nil, c18MakeErr(c18FailKind(plan.E), id)
 			}
 			return id, nil
 		}, syncx.WithRefreshIntervalOnFailure(interval))
@@ -469,6 +469,13 @@ func c18ImmutableInterp(t *testing.T, ic c18ImmCase) kit.Verdict {
 			v.failf("%s returned a foreign value", name)
 			continue
 		}
+		if !ev.Pan && ev.Err != 0 {
+			// the error handed on is the value some failed fetch returned, whatever its kind
+			if e, ok := execByID[ev.Err]; !ok || !e.Fail || e.Pan || e.End.S > ev.Ret.S {
+				v.failf("%s returned error tag %d which no finished failing fetch produced", name, ev.Err)
+			}
+			v.class("get-returned-fetch-error")
+		}
 		if !ev.Pan && ev.Val > 0 {
 			// F3: the value of a successful fetch that had ended
 			e, ok := execByID[ev.Val]
@@ -523,7 +530,11 @@ func c18ImmutableGen(rt *rapid.T) c18ImmCase {
 	c := c18ImmCase{P: rapid.SampledFrom([]int{0, 1, 2, 3, 5}).Draw(rt, "interval")}
 	nf := rapid.IntRange(1, 4).Draw(rt, "nf")
 	for i := 0; i < nf; i++ {
-		c.F = append(c.F, c18Op{H: c18Hold(rt), A: rapid.SampledFrom([]int{0, 0, 1, 1, 1, 2}).Draw(rt, "outcome")})
+		f := c18Op{H: c18Hold(rt), A: rapid.SampledFrom([]int{0, 0, 1, 1, 1, 2}).Draw(rt, "outcome")}
+		if f.A == 1 {
+			f.E = c18ErrKind(rt, false)
+		}
+		c.F = append(c.F, f)
 	}
 	c.Gs = c18GenGs(rt, 5, func(rt *rapid.T, burst bool) c18Op { return c18Op{K: "get"} })
 	return c
